@@ -364,7 +364,23 @@ func (p *Parsed) refactorSites(r *rand.Rand, i int, kind string) []site {
 				sites = append(sites, site{kind: kind, node: x, apply: func() { x.Value = nv }})
 			case token.INT:
 				v, ok := signedVal(x, stack)
-				if !ok || (v >= -16 && v <= 16) {
+				if !ok {
+					// does not fit an int64: a uint64-range literal, replaced by another one
+					// (all of them far outside the small range, whichever way they are read)
+					if _, fits := intVal(x); fits {
+						return
+					}
+					alts := []string{"0xFFFFFFFFFFFFFF00", "18446744073709550000", "0x8000000000000001", "0xFFFFFFFFFFFFFFFF"}
+					nv := alts[r.Intn(len(alts))]
+					if nv == x.Value {
+						nv = alts[(r.Intn(len(alts)-1)+1)%len(alts)]
+					}
+					if nv != x.Value {
+						sites = append(sites, site{kind: kind, node: x, apply: func() { x.Value = nv }})
+					}
+					return
+				}
+				if v >= -16 && v <= 16 {
 					return
 				}
 				alts := []string{"23", "99", "1234", "40000"}
@@ -794,6 +810,10 @@ func (p *Parsed) CanonLiterals(gi int) int {
 			v, ok := signedVal(lit, stack)
 			if ok && (v < -16 || v > 16) && lit.Value != "17" {
 				lit.Value = "17"
+				n++
+			}
+			if _, fits := intVal(lit); !ok && !fits && lit.Value != "0x8000000000000000" {
+				lit.Value = "0x8000000000000000" // beyond int64: stays a uint64-range literal
 				n++
 			}
 		case token.FLOAT:
